@@ -287,6 +287,9 @@ func runC14(c *Ctx) {
 	// forced interleaving on real UDP servers: an accepted-but-undecodable datagram, then two requests in flight
 	heldDatagrams(c, r, "udp")
 	heldDatagrams(c, r, "pc")
+	// datagrams that never reach a handler must not keep later, well-formed queries from theirs
+	c12IgnoredThenQueries(c, r, "udp")
+	c12IgnoredThenQueries(c, r, "pc")
 }
 
 type tagHandler struct{ tag string }
